@@ -200,6 +200,13 @@ def _v(cls, msg, trace, k, extra=""):
 
 
 def mo_invariants(mo, trace, k, out):
+    try:
+        _mo_invariants(mo, trace, k, out)
+    except Exception as exc:  # noqa: BLE001 - an accepted object whose own accessors crash is inconsistent
+        out.append(_v("J0_accessor_crashes", f"derived quantities of an accepted object raise {type(exc).__name__}: {exc}", trace, k, type(exc).__name__))
+
+
+def _mo_invariants(mo, trace, k, out):
     c = copy.deepcopy(mo)
     kind = c.kind
     if kind == "generalized":
@@ -278,6 +285,13 @@ def shell_nbasis(angmoms, kinds):
 
 
 def shell_invariants(sh, trace, k, out):
+    try:
+        _shell_invariants(sh, trace, k, out)
+    except Exception as exc:  # noqa: BLE001
+        out.append(_v("J0_accessor_crashes", f"derived quantities of an accepted shell raise {type(exc).__name__}: {exc}", trace, k, type(exc).__name__))
+
+
+def _shell_invariants(sh, trace, k, out):
     c = copy.deepcopy(sh)
     nexp, ncon = c.coeffs.shape if c.coeffs.ndim == 2 else (None, None)
     if c.coeffs.ndim != 2 or len(c.angmoms) != ncon or len(c.kinds) != ncon or len(c.exponents) != nexp:
